@@ -455,12 +455,14 @@ def run_impl(path, now, db, master=None):
         args += ['--master-account', master]
     for attempt in range(5):
         try:
-            st, out, err = lib.run_ledger(args, timeout=10)
+            st, out, err = lib.run_ledger(args, timeout=10 if attempt == 0 else 90)
         except OSError:          # the binary is being re-linked by a concurrent build
             if attempt == 4:
                 raise
             time.sleep(2)
             continue
+        if st == 'timeout' and attempt == 0:
+            continue             # a loaded machine, or a real hang: once more with a long limit before saying so
         if isinstance(st, int) and st > 0 and b'Error' not in err and attempt < 4:
             time.sleep(2)        # no ledger message at all (the loader failed on a library being replaced): once more
             continue
@@ -501,11 +503,13 @@ def run_bal(path, now, db, master=None):
         args += ['--master-account', master]
     for attempt in range(5):
         try:
-            st, out, err = lib.run_ledger(args, timeout=10)
+            st, out, err = lib.run_ledger(args, timeout=10 if attempt == 0 else 90)
         except OSError:
             if attempt == 4:
                 raise
             time.sleep(2)
+            continue
+        if st == 'timeout' and attempt == 0:
             continue
         if isinstance(st, int) and st > 0 and b'Error' not in err and attempt < 4:
             time.sleep(2)
@@ -1002,7 +1006,7 @@ def run(ctx, n_override=None):
                 'included files with clock lines, apply tag / apply year / year / alias, C conversions putting units with non-uniform factors above hours, '
                 'sessions of several days), each run through reg with and without --day-break and through bal; '
                 'non-trivial = the file contains a check-out line; distinct by the text of all files, --now, --master-account and the day-break flag')
-    n = n_override or ctx.scale(700, 3000)
+    n = n_override or ctx.scale(600, 3000)
     cases = []
     for i in range(n):
         k = rng.random()
@@ -1035,7 +1039,7 @@ def run(ctx, n_override=None):
     reported = []         # (case text, chain, [(what, seconds, text shown, exact shown)]) for the second model batch
     for i, (tag, case, files, main, insts) in enumerate(prepared):
         if hangs >= 3:
-            res.notes.append('stopped after 3 runs that did not terminate within 10 s')
+            res.notes.append('stopped after 3 runs that did not terminate within 10 s and again within 90 s')
             break
         write_files(ctx, files)
         text = ''.join('== %s ==\n%s' % (f, files[f]) for f in sorted(files)) if len(files) > 1 else files[main]
